@@ -7,6 +7,7 @@ CONSTANTS
   BaseVals = {2}
   CallValues = {0, 3}
   Amounts = {1}
+  Codes <- AllCodes
   MaxDepth = 2
   MaxTransfers = 2
   Deploys = FALSE
